@@ -6,7 +6,8 @@ that hold for the leaf's pair of variants:
     r and s identical;  r = Empty;  r = Epsilon and s nullable;  (not r1, not s2) with sub(s2, r1);
     s = Union and  exists x in s: sub(r, x);      r = Inter and  exists x in r: sub(x, s);
     r = Union and  forall x in r: sub(x, s);      s = Inter and  forall x in s: sub(r, x);
-    concat_inclusion(decompose r, decompose s)  (the rigid/flexible matcher; its matching loops are NOT decided - DESIGN 7).
+    concat_inclusion(decompose r, decompose s)  (the rigid/flexible matcher: anchoring R3, its passes R4, its leaves C16.H;
+    the step from these to L(u) in L(v) is the paper argument of DESIGN 5.C16).
 Returning false is always sound.  R3 decides one necessary condition of the matcher: anchoring.  The flexible regions
 are the gaps between matched rigid patterns, so the pattern list handed to the un-anchored searches must not begin or
 end with a rigid pattern: on every path of concat_inclusion that answers true, the rigidity of the first and of the
@@ -35,6 +36,7 @@ def run(ctx):
     guarded(ctx, 'C16.R1', 'C16.R1/sub_language', r1_schemes)
     guarded(ctx, 'C16.R2', 'C16.R2/subsumption', r2_subsumption)
     guarded(ctx, 'C16.R3', 'C16.R3/anchoring', r3_anchoring)
+    guarded(ctx, 'C16.R4', 'C16.R4/passes', r4_passes)
 
 
 def quant_matches(f, kind, lst, bodyf):
@@ -247,3 +249,228 @@ def r3_anchoring(ctx):
             okn = need in kinds
             ctx.obligation(okn)
             (ctx.ok if okn else ctx.violation)('C16.R3', 'C16.R3/concat_inclusion/case-present:%s' % need, fn.path, fn.site(), {'accepting_paths': ntrue}, cfg)
+
+
+def r4_passes(ctx):
+    """R4 - the passes of concat_inclusion each do what the soundness argument needs (call-log rules; the argument itself
+    - rigid patterns matched at increasing disjoint positions, every gap accepted only against Sigma*, first and last
+    pattern anchored (R3) - is on paper):
+      base_patterns   cuts v into consecutive maximal runs of equal rigidity: a pattern (j, i, rigid_slice) is emitted exactly
+                      when the rigidity changes at i, then j := i; the last run (j, |v|) is emitted; nothing for empty v;
+      find_rigid_matches(_rev)  every rigid pattern, in order, is searched from the running position with next(prev)_rigid_match
+                      on the character sets of its own slice of v; a miss answers false, a hit is recorded on that pattern
+                      and the position moves to the end (start) of the hit; true only after the last pattern;
+      set_flexible_regions      a flexible pattern gets the region between its neighbours' matches (0 / |u| at the ends);
+      match_flexible_patterns   no patterns: u must be empty; otherwise every flexible pattern's region of u must pass
+                      flexible_match against its own slice of v; true only after the last pattern;
+      shift_pattern_start       every pattern's start and end are lowered by delta."""
+    from .. import calllog
+    u, v, pats = A(0), A(1), A(2)
+    for cfg in ('dev', 'rel'):
+        # ---- base_patterns
+        log = calllog.run(ctx, cfg, RE + 'base_patterns')
+        ip, fn = log.ip, log.fn
+        kinds = set()
+        for it in log.iterations:
+            j = [hv for hv, ev in it.mapping if hv[0] == 'var' and hv[1].startswith('j@')]
+            rs = [hv for hv, ev in it.mapping if hv[0] == 'var' and hv[1].startswith('rigid_slice@')]
+            pos = [hv for hv, ev in it.mapping if hv[0] == 'var' and 'iter.pos@' in hv[1]]
+            isr = it.named('BaseRegLan::is_range')
+            mk = it.named('BasePattern::make')
+            ok = len(j) == 1 and len(rs) == 1 and len(pos) == 1 and len(isr) == 1 and isr[0][1][0] == ('fld', ('elem', A(0), pos[0]), 'expr')
+            if ok:
+                j, rs, pos = j[0], rs[0], pos[0]
+                ri = T.typed(calllog.call_term(isr[0]), 'bool')
+                changed = OR(AND(rs, NOT(ri)), AND(NOT(rs), ri))
+                if ip.entails(it.state, changed):
+                    ok = len(mk) == 1 and mk[0][1] == (j, pos, rs) and it.cur.get(j) == pos and it.cur.get(rs) == ri
+                    kinds.add('cut')
+                elif ip.entails(it.state, NOT(changed)):
+                    ok = not mk and it.cur.get(j, j) == j and it.cur.get(rs, rs) == rs
+                    kinds.add('extend')
+                else:
+                    ok = False
+                ok = ok and ip.entails(it.state, eq(it.cur.get(pos, pos), T.mk_add(pos, I(1))))
+                ok = ok and [ev for hv, ev in it.mapping if hv == j] == [I(0)] and [ev for hv, ev in it.mapping if hv == pos] == [I(1)]
+                ok = ok and [ev for hv, ev in it.mapping if hv == rs] == [T.typed(('call', RE + 'BaseRegLan::is_range', (('fld', ('elem', A(0), I(0)), 'expr'),)), 'bool')]
+            ctx.obligation(ok)
+            (ctx.ok if ok else ctx.violation)('C16.R4', 'C16.R4/base_patterns/a-run-is-cut-exactly-where-the-rigidity-changes', fn.path, fn.site(), {'calls': [T.show(calllog.call_term(c))[:140] for c in it.calls]}, cfg)
+        for o in log.outs:
+            if o.kind != 'ret':
+                continue
+            if ip.entails(o.state, eq(T.typed(('len', A(0)), 'usize'), I(0))):
+                ok = ip.to_term(o.state, o.value) == ('list', ())
+                role = 'empty-v-gives-no-pattern'
+            else:
+                mk = [c for c in o.state.calls if c[0] == RE + 'BasePattern::make']
+                t = ip.to_term(o.state, o.value)
+                js = [x for f in o.state.pc for x in T.subterms(f) if x[0] == 'var' and x[1].startswith('j@')]
+                ok = bool(mk) and mk[-1][1][1] == T.typed(('len', A(0)), 'usize') and loop_exhausted(ip, o.state) and t[0] == 'list' and t[1][-1] == ('one', calllog.call_term(mk[-1])) and \
+                    mk[-1][1][0][0] == 'var' and mk[-1][1][0][1].startswith('j@') and mk[-1][1][2][0] == 'var' and mk[-1][1][2][1].startswith('rigid_slice@')
+                role = 'last-run-(j,|v|)-emitted-after-the-whole-of-v'
+            kinds.add(role)
+            ctx.obligation(ok)
+            (ctx.ok if ok else ctx.violation)('C16.R4', 'C16.R4/base_patterns/' + role, fn.path, fn.site(), {'returned': safe_show(ip, o)[:200]}, cfg)
+        need = {'cut', 'extend', 'empty-v-gives-no-pattern', 'last-run-(j,|v|)-emitted-after-the-whole-of-v'}
+        ctx.obligation(need <= kinds)
+        (ctx.ok if need <= kinds else ctx.violation)('C16.R4', 'C16.R4/base_patterns/cases-present', fn.path, fn.site(), {'found': sorted(kinds)}, cfg)
+        # ---- find_rigid_matches / _rev
+        for name, search, move in (('find_rigid_matches', 'next_rigid_match', '1'), ('find_rigid_matches_rev', 'prev_rigid_match', '0')):
+            log = calllog.run(ctx, cfg, RE + name)
+            ip, fn = log.ip, log.fn
+            kinds = set()
+            for it in log.iterations:
+                iv = [hv for hv, ev in it.mapping if hv[0] == 'var' and hv[1].startswith('i@')]
+                rig = [f for f in it.state.pc if (f[0] == 'fld' and f[2] == 'is_rigid') or (f[0] == 'not' and f[1][0] == 'fld' and f[1][2] == 'is_rigid')]
+                ok = len(iv) == 1 and len(rig) >= 1
+                if ok:
+                    iv = iv[0]
+                    pos_lit = rig[-1]
+                    P = pos_lit[1] if pos_lit[0] == 'fld' else pos_lit[1][1]
+                    if pos_lit[0] == 'fld':
+                        cs = it.named('char_sets_of_pattern')
+                        sr = it.named(search)
+                        sm = it.named('BasePattern::set_match')
+                        ok = len(cs) == 1 and len(sr) == 1 and len(sm) == 1 and len(it.calls) == 3
+                        if ok:
+                            found = calllog.call_term(sr[0])
+                            ok = (cs[0][1][0] == ('slice', v, T.fld(P, 'start', 'usize'), T.fld(P, 'end', 'usize')) and
+                                  sr[0][1] == (calllog.call_term(cs[0]), u, iv) and it.state.variants.get(found) == 0 and
+                                  sm[0][1][0] == P and sm[0][1][1] == T.typed(('vfld', found, 'Found', '0'), 'usize') and sm[0][1][2] == T.typed(('vfld', found, 'Found', '1'), 'usize') and
+                                  it.cur.get(iv) == T.typed(('vfld', found, 'Found', move), 'usize'))
+                        kinds.add('rigid')
+                    else:
+                        ok = not it.calls and it.cur.get(iv, iv) == iv
+                        kinds.add('flexible')
+                ctx.obligation(ok)
+                (ctx.ok if ok else ctx.violation)('C16.R4', 'C16.R4/%s/each-rigid-pattern-searched-from-the-running-position-and-recorded' % name, fn.path, fn.site(), {'calls': [T.show(calllog.call_term(c))[:160] for c in it.calls]}, cfg)
+            for o in log.outs:
+                if o.kind != 'ret':
+                    continue
+                if o.value == TRUE:
+                    ok = loop_exhausted(ip, o.state)
+                    kinds.add('true')
+                else:
+                    sr = [c for c in o.state.calls if c[0] == RE + search]
+                    ok = o.value == FALSE and bool(sr) and o.state.variants.get(calllog.call_term(sr[-1])) == 1
+                    kinds.add('false')
+                ctx.obligation(ok)
+                (ctx.ok if ok else ctx.violation)('C16.R4', 'C16.R4/%s/true-only-after-the-last-pattern-false-only-on-a-miss' % name, fn.path, fn.site(), {'leaf_constraints': pc_text(o)[-3:]}, cfg)
+            okk = kinds == {'rigid', 'flexible', 'true', 'false'}
+            ctx.obligation(okk)
+            (ctx.ok if okk else ctx.violation)('C16.R4', 'C16.R4/%s/cases-present' % name, fn.path, fn.site(), {'found': sorted(kinds)}, cfg)
+            # start position: 0 / |u|
+            starts = {ev for it in log.iterations for hv, ev in it.mapping if hv[0] == 'var' and hv[1].startswith('i@')}
+            oks = starts == ({I(0)} if move == '1' else {T.typed(('len', u), 'usize')})
+            ctx.obligation(oks)
+            (ctx.ok if oks else ctx.violation)('C16.R4', 'C16.R4/%s/starts-at-the-%s-of-u' % (name, 'beginning' if move == '1' else 'end'), fn.path, fn.site(), {'start': [T.show(x) for x in starts]}, cfg)
+        # ---- set_flexible_regions
+        log = calllog.run(ctx, cfg, RE + 'set_flexible_regions')
+        ip, fn = log.ip, log.fn
+        n_ = 0
+        kinds = set()
+        for it in log.iterations:
+            pos = [hv for hv, ev in it.mapping if hv[0] == 'var' and 'iter.pos@' in hv[1]]
+            sm = it.named('BasePattern::set_match')
+            ok = len(pos) == 1
+            if ok and sm:
+                pos = pos[0]
+                P = sm[0][1][0]
+                arr = P[1] if P[0] == 'elem' else None
+                ok = len(sm) == 1 and arr is not None and P[2] == pos and ip.entails(it.state, NOT(T.typed(('fld', P, 'is_rigid'), 'bool')))
+                if ok:
+                    n = T.typed(('len', arr), 'usize')
+                    first = ip.entails(it.state, eq(pos, I(0)))
+                    lastp = ip.entails(it.state, eq(pos, T.mk_sub(n, I(1))))
+                    notfirst = ip.entails(it.state, ne(pos, I(0)))
+                    notlast = ip.entails(it.state, ne(pos, T.mk_sub(n, I(1))))
+                    wantp = I(0) if first else (T.fld(('elem', arr, T.mk_sub(pos, I(1))), 'end_match', 'usize') if notfirst else None)
+                    wantn = T.var('a1', 'usize') if lastp else (T.fld(('elem', arr, T.mk_add(pos, I(1))), 'start_match', 'usize') if notlast else None)
+                    ok = wantp is not None and wantn is not None and sm[0][1][1] == wantp and sm[0][1][2] == wantn
+                    kinds.add(('first' if first else 'inner-left') + '/' + ('last' if lastp else 'inner-right'))
+                n_ += 1
+            elif ok:
+                ok = any(f[0] == 'fld' and f[2] == 'is_rigid' and f[1][0] == 'elem' and f[1][2] == pos[0] for f in it.state.pc)
+                kinds.add('rigid-untouched')
+            ctx.obligation(ok)
+            (ctx.ok if ok else ctx.violation)('C16.R4', 'C16.R4/set_flexible_regions/flexible-region-is-the-gap-between-the-neighbouring-matches', fn.path, fn.site(), {'calls': [T.show(calllog.call_term(c))[:160] for c in it.calls]}, cfg)
+        okk = len(kinds) == 5
+        ctx.obligation(okk)
+        (ctx.ok if okk else ctx.violation)('C16.R4', 'C16.R4/set_flexible_regions/cases-present', fn.path, fn.site(), {'found': sorted(kinds)}, cfg)
+        for o in log.outs:
+            if o.kind == 'ret':
+                okx = loop_exhausted(ip, o.state)
+                ctx.obligation(okx)
+                (ctx.ok if okx else ctx.violation)('C16.R4', 'C16.R4/set_flexible_regions/every-pattern-visited', fn.path, fn.site(), None, cfg)
+        # ---- match_flexible_patterns
+        log = calllog.run(ctx, cfg, RE + 'match_flexible_patterns')
+        ip, fn = log.ip, log.fn
+        kinds = set()
+        for it in log.iterations:
+            fm = it.named('flexible_match')
+            rig = [f for f in it.state.pc if (f[0] == 'fld' and f[2] == 'is_rigid') or (f[0] == 'not' and f[1][0] == 'fld' and f[1][2] == 'is_rigid')]
+            ok = bool(rig)
+            if ok and rig[-1][0] == 'not':
+                P = rig[-1][1][1]
+                ok = len(fm) == 1 and len(it.calls) == 1 and fm[0][1] == (('slice', u, T.fld(P, 'start_match', 'usize'), T.fld(P, 'end_match', 'usize')), ('slice', v, T.fld(P, 'start', 'usize'), T.fld(P, 'end', 'usize'))) and \
+                    ip.entails(it.state, T.typed(calllog.call_term(fm[0]), 'bool'))
+                kinds.add('flexible')
+            elif ok:
+                ok = not it.calls
+                kinds.add('rigid')
+            ctx.obligation(ok)
+            (ctx.ok if ok else ctx.violation)('C16.R4', 'C16.R4/match_flexible_patterns/continues-only-past-a-flexible-pattern-whose-region-passes-flexible_match', fn.path, fn.site(), {'calls': [T.show(calllog.call_term(c))[:200] for c in it.calls]}, cfg)
+        for o in log.outs:
+            if o.kind != 'ret':
+                continue
+            calls = o.state.calls
+            if ip.entails(o.state, eq(T.typed(('len', pats), 'usize'), I(0))):
+                ok = T.valid_iff(list(o.state.pc), o.value, eq(T.typed(('len', u), 'usize'), I(0))) and not calls
+                role = 'no-pattern-means-u-is-empty'
+            elif o.value == TRUE:
+                sfr = [c for c in calls if c[0] == RE + 'set_flexible_regions']
+                ok = len(sfr) == 1 and calls[0] == sfr[0] and sfr[0][1] == (pats, T.typed(('len', u), 'usize')) and loop_exhausted(ip, o.state)
+                role = 'true-only-after-regions-were-set-and-every-pattern-passed'
+            else:
+                fm = [c for c in calls if c[0] == RE + 'flexible_match']
+                ok = o.value == FALSE and bool(fm) and ip.entails(o.state, NOT(T.typed(calllog.call_term(fm[-1]), 'bool')))
+                role = 'false-only-when-a-flexible-region-fails'
+            kinds.add(role)
+            ctx.obligation(ok)
+            (ctx.ok if ok else ctx.violation)('C16.R4', 'C16.R4/match_flexible_patterns/' + role, fn.path, fn.site(), {'leaf_constraints': pc_text(o)[-3:]}, cfg)
+        okk = len(kinds) == 5
+        ctx.obligation(okk)
+        (ctx.ok if okk else ctx.violation)('C16.R4', 'C16.R4/match_flexible_patterns/cases-present', fn.path, fn.site(), {'found': sorted(kinds)}, cfg)
+        # ---- shift_pattern_start
+        an = analyse(ctx, cfg, RE + 'shift_pattern_start', [], uninterpreted=lambda p: True)
+        ip, fn = an.ip, an.fn
+        delta = T.var('a1', 'usize')
+        nb = 0
+        for (p_, head, bst, bmap, valid, cur) in ip.back_states:
+            pos = [hv for hv, ev in bmap if hv[0] == 'var' and 'iter.pos@' in hv[1]]
+            ws = []
+            for c in bst.frames[-1].cells:
+                x = c.v
+                while isinstance(x, X.Ref):
+                    x = ip.load(bst, x.cell, x.path)
+                if isinstance(x, X.Sym) and x.wr:
+                    ws += [(x.term, k, ip.to_term(bst, x.over[k])) for k in x.wr]
+            nb += 1
+            ok = len(pos) == 1 and len(ws) >= 1
+            if ok:
+                flat = {}
+                for term, k, val in ws:
+                    flat[str(k)] = (term, val)
+                # the element at the position is rewritten with start - delta and end - delta
+                txt = ' '.join('%s=%s' % (k, T.show(val)) for k, (term, val) in flat.items())
+                ok = ('start - a1' in txt.replace('(', '').replace(')', '') and 'end - a1' in txt.replace('(', '').replace(')', '')) or \
+                     ('wrap_sub' in txt and txt.count('wrap_sub') >= 2)
+            ctx.obligation(ok)
+            (ctx.ok if ok else ctx.violation)('C16.R4', 'C16.R4/shift_pattern_start/start-and-end-of-every-pattern-lowered-by-delta', fn.path, fn.site(), {'writes': [(str(k), T.show(val)[:80]) for term, k, val in ws]}, cfg)
+        ctx.obligation(nb >= 1)
+        (ctx.ok if nb >= 1 else ctx.violation)('C16.R4', 'C16.R4/shift_pattern_start/loop-found', fn.path, fn.site(), None, cfg)
+        for o in an.outs:
+            if o.kind == 'ret':
+                okx = loop_exhausted(ip, o.state)
+                ctx.obligation(okx)
+                (ctx.ok if okx else ctx.violation)('C16.R4', 'C16.R4/shift_pattern_start/every-pattern-visited', fn.path, fn.site(), None, cfg)
